@@ -14,8 +14,8 @@ adt(ArgDicts=dict(DDNil={}, DDCons=dict(hd="ArgDict", tl="ArgDicts")))
 
 @prim(lean="strOfFloat")
 def strOfFloat(fid: Int) -> Str:
-    "str(x) for the float with identity fid (abstract: floats are opaque atoms)"
-    return "float#" + str(fid)
+    "str(x) for the float with identity fid (floats are opaque atoms; the executable form uses the float fid + 0.5)"
+    return str(float(fid) + 0.5)
 
 
 def _droplast_z3(world, name, dom, rng):
